@@ -105,7 +105,17 @@ def cases(tier, seed):
     return out, nex, maxn
 
 
-def program(body, rng=None):
+def program(body, template=0):
+    """module shapes around the body: 0 parameter + leading variable; 1 nothing declared before the
+    body (no parameter, no leading variable, `use x` is `x = x;`); 2 module constants named like the
+    body's variables, a parameter named like a constant; 3 signatures without body (before and after)
+    whose parameters are named like the body's variables and constants"""
+    if template == 1:
+        return "fn main()\n{\n" + G.render(body, cond="true == true", sink=None) + "}\n"
+    if template == 2:
+        return "const y: i32 = 7;\nconst k: i32 = 8;\nfn main(k: i32) -> i32\n{\n\tvar r: i32 = 0;\n" + G.render(body) + "\treturn: r\n}\nconst z: i32 = 9;\n"
+    if template == 3:
+        return "fn head(x: i32, y: i32) -> i32;\nfn main(p: i32) -> i32\n{\n\tvar r: i32 = 0;\n" + G.render(body) + "\treturn: r\n}\nextern fn tail(r: i32, r: i32);\n"
     return "fn main(p: i32) -> i32\n{\n\tvar r: i32 = 0;\n" + G.render(body) + "\treturn: r\n}\n"
 
 
@@ -118,6 +128,14 @@ def run(tier):
     bodies, nex, maxn = cases(tier, ck.seed)
     ck.log("cases: %d (exhaustive part %d, <=%d statements)" % (len(bodies), nex, maxn))
     srcs = [("%s%d" % (k, i), program(b)) for i, (k, b) in enumerate(bodies)]
+    # the other module shapes: exhaustive bodies in every shape, random bodies in one shape each
+    for i, (k, b) in enumerate(bodies):
+        if k == "x":
+            for t in (1, 2, 3): srcs.append(("%s%dt%d" % (k, i, t), program(b, t)))
+        elif i % 2 == 0:
+            t = 1 + (i // 2) % 3
+            if t == 1 and k == "s": continue
+            srcs.append(("%s%dt%d" % (k, i, t), program(b, t)))
     impl = C.run_harness("front", srcs, ck.work)
     items = [("vars", cid, impl[cid][2]) for cid, _ in srcs if cid in impl and len(impl[cid]) >= 3 and impl[cid][2].startswith("(")]
     model = C.run_model(items, ck.work)
@@ -156,7 +174,7 @@ def run(tier):
         ck.violation("tie-broken:proof", "Props/C05.v no longer checks", getattr(ck, "proof_output", "")[-2000:])
     ck.coverage.update(
         evaluations=len(srcs), distinct_nontrivial=len(distinct),
-        rule="all bodies with <=%d statements over {label a/b, goto a/b, if-goto a/b, var x/y, use x/y, block, if/else}, depth<=3 (exhaustive: %d) plus %d random bodies up to 30 statements (initialisers using other variables, undefined names, goto return); non-trivial = rejected with a variable-scoping code, distinct by parsed shape" % (maxn, nex, len(srcs) - nex),
+        rule="all bodies with <=%d statements over {label a/b, goto a/b, if-goto a/b, var x/y, use x/y, block, if/else}, depth<=3 (exhaustive: %d, each in 4 module shapes: parameter + leading variable / nothing declared before the body / module constants named like the variables / signatures without body with clashing parameter names) plus %d random bodies up to 30 statements (initialisers using other variables, undefined names, goto return); non-trivial = rejected with a variable-scoping code, distinct by parsed shape" % (maxn, nex, len(srcs) - nex),
         exhaustive_part=nex, verdict_distribution=dict(dist.most_common(14)), mismatches=mism,
         samples=[dict(source=srcs[i][1], impl=impl.get(srcs[i][0], ["?"])[0], model=model.get(srcs[i][0])) for i in (nex // 3, nex + 1, len(srcs) - 1)])
     ck.assumptions += ["reachability is the over-approximation in which every statement may complete normally (the reading of docs/errors.md: 'may be skipped')",
